@@ -63,6 +63,12 @@ func (s *Sched) yield(p *Proc, site string) {
 	if s.free {
 		return
 	}
+	// the process that parks is the one whose goroutine is calling, whatever object the caller
+	// believes it is working for (a library that mixes up two applications makes one application's
+	// goroutine run the other's callbacks)
+	if q := current(); q != nil {
+		p = q
+	}
 	sp := s.byProc[p]
 	if sp == nil {
 		return
@@ -168,7 +174,13 @@ func RunScheduled(t *Tape, strategy int, procs []*Proc, bodies []func() error) *
 		}
 		s.hash = mix(s.hash, uint64(pick), fnv64(sp.site))
 		cur = sp.p
-		sp.resume <- struct{}{}
+		select {
+		case sp.resume <- struct{}{}:
+		case <-time.After(10 * schedStall):
+			// the process is not where the scheduler left it: it is blocked inside the library
+			s.Deadlock = true
+			return s
+		}
 		select {
 		case ev := <-s.events:
 			if ev.done {
